@@ -471,6 +471,17 @@ def main():
         if not d and not crashed and not model_failed:
             continue
         ops = read_lines(os.path.join(r["out"], "ops.txt"))
+        if crashed and ops:
+            # the harness process died: the last operation written to ops.txt killed it
+            killer = ops[-1]
+            opsk = ddmin(cfg, ops, work, lambda rr: rr.get("crash"), False, budget=60) if not cfg.get("stateless") else [killer]
+            rp = write_replay(pid, "crash-%s-%d" % (cfg["family"], r["seed"]), {
+                "property": pid, "kind": "process-killed", "family": cfg["family"], "t1_index": r["ci"], "seed": r["seed"],
+                "killer_op": killer, "harness_log": r["harness_log"][-1500:], "ops": opsk,
+                "rerun": "./check %s --replay <this file>" % pid})
+            violations.append({"kind": "crash", "signature": "process-killed", "replay": rp, "found_input": True,
+                               "what": "the process under test exited/crashed while executing: " + killer[:200]})
+            break
         if d:
             ops = ops[: d["index"] + 1]
             if cfg.get("stateless"):
